@@ -63,6 +63,14 @@ pub struct Error {
     info: Info,
 }
 
+impl Error {
+    /// The `error-severity` of this `rpc-error`.
+    #[must_use]
+    pub const fn severity(&self) -> Severity {
+        self.severity
+    }
+}
+
 impl ReadXml for Error {
     #[tracing::instrument(skip_all, fields(tag = ?start.local_name()), level = "debug")]
     fn read_xml(reader: &mut NsReader<&[u8]>, start: &BytesStart<'_>) -> Result<Self, ReadError> {
